@@ -36,7 +36,7 @@ def run(ctx):
                         hist_budget=120000 if quick else 1500000, explore_budget=3000 if quick else 20000)
     # "every capacity": rounding to a power of two over the whole range of requested capacities
     vlib.case_component(ctx, "SyncRingCap", "SyncRingSeq", "CapCases", ["MC_cap.cfg"], "c10cap")
-    ctx.assumptions += ["TicketRing.tla (inductive invariant, unbounded runs) abstracts from values and from the counter wrap and is tied to the code only through its step-for-step correspondence with SyncRingImpl.tla, whose every edge is replayed on the real ring",
+    ctx.assumptions += ["TicketRing.tla (inductive invariant, unbounded runs) abstracts from values and from the counter wrap; it is tied to the code through SyncRingImpl.tla (same ten atomic steps; TicketRing's invariant, read modulo M, is checked by TLC as the invariant TicketInv of that code-shaped model, whose every edge is replayed on the real ring)",
                         "int elements", "PushWait/PopWait are driven with maxWait 0 and <0 only (positive durations are wall-clock behaviour)",
                         "the real ring is placed at 2^32-M+Base through an add-only export file in the scratch copy, so the model's wrap modulo M coincides with the real 32-bit wrap",
                         "data-race freedom is observed by the Go race detector on real goroutines (plain accesses are invisible to the scheduler shim)"]
